@@ -99,7 +99,7 @@ def build(ctx, evo):
         before = model.clone()
         name = "%s_s%d.sql" % (version(i), i)
         if st["writer"] == "hand":
-            text = L.render_hand_file(before, st["ops"], ctx.rand("evo", evo, "render", i))
+            text = L.render_hand_file(before, st["ops"], ctx.rand("evo", evo, "render", i), eol=st.get("eol"))
             with open(os.path.join(mig, name), "w", newline="") as f:
                 f.write(text)
         for op in st["ops"]:
@@ -121,6 +121,11 @@ def build(ctx, evo):
                 text, _, _ = L.inject_nolint(text, ctx.rand("evo", evo, "inject", i))
                 with open(os.path.join(mig, name), "w", newline="") as fh:
                     fh.write(text)
+            if st.get("eol"):
+                # the planned file after a checkout that converts line endings (core.autocrlf)
+                text = L.with_eol(text, st["eol"], ctx.rand("evo", evo, "eol", i))
+                with open(os.path.join(mig, name), "w", newline="") as fh:
+                    fh.write(text)
         rc, out, err = ctx.atlas_run(["migrate", "hash", "--dir", "file://migrations"], d)
         if rc != 0:
             raise Skip("inconclusive", "hash-failed", {"rc": rc, "stderr": err[-600:]})
@@ -129,6 +134,9 @@ def build(ctx, evo):
                       "kind": st["kind"], "ops": [L.op_label(o) for o in st["ops"]], "relaxed": relaxed, "model_after": model.facts()})
         if (st.get("focus") and len(st["ops"]) > 1) or st["kind"].startswith("nolint_"):
             files[-1]["cls"] = st["kind"]
+        if st.get("cls"):
+            files[-1]["cls"] = st["cls"]
+        files[-1]["eol"] = st.get("eol") or "lf"
     # the model must describe what the files really do (independent engine); for hand-written files a
     # mismatch is a bug of this monitor, for atlas-written ones the diff did not converge (not C18's business)
     try:
@@ -186,7 +194,9 @@ def judge_file(f, rec, diags):
     exc_alias = {n: e["t"] for e in exc_t.values() for n in e["names"]}
 
     def span(a, b):
-        return [(stmts[a].region, stmts[b].end)]
+        # inside the text of the statement(s) proper: the byte offsets of the ORIGINAL file from the first character
+        # of the (first) statement to the end of the (last) one; comments and blank lines above do not count
+        return [(stmts[a].start, stmts[b].end)]
     t_span = {e["t"]: [x for i in e["stmts"] for x in span(i, i)] for e in rec["tables"]}
     t_alias = {n: e["t"] for e in rec["tables"] for n in e["names"]}
     # a table renamed first and re-created under its old name (rename-first rebuild): a DS103 for a lost column
@@ -215,6 +225,8 @@ def judge_file(f, rec, diags):
                 covered_t[t] += 1
                 if not inside(pos, t_span[t]):
                     problems.append(("pos|DS102|%s|%s" % (cls, writer), "DS102 for table %r at Pos %r which is not inside a statement that (renames and) drops it (%r)" % (t, pos, t_span[t])))
+            elif t in rec.get("optional", ()):
+                pass  # a shadow table of a dropped virtual table: implementation detail, may or may not be listed
             elif t in exc_alias:
                 problems.append(("nolint|DS102-reported-despite-directive", "table %r is dropped by a statement excused by an atlas:nolint directive (file rules %r) yet DS102 is reported at Pos %r" % (t, frules, pos)))
             elif t in relaxed and inside(pos, g_span.get(t, [])):
@@ -355,6 +367,14 @@ def judge_window(ctx, case, n, rc, rep, out, err, verbose=False):
         problems, observed, (exp_t, exp_c, virt, groups, stmts, readded, recreated, renamed, nol) = judge_file(f, recs[i], diags)
         if nol:
             ctx.count("nolint|%s|%s" % (nol, f["writer"]))
+        if f.get("eol", "lf") != "lf":
+            ctx.count("line-endings|%s|%s|%s" % (f["eol"], f["writer"], "destructive" if (exp_t or exp_c) else "clean"))
+        if recs[i].get("optional"):
+            ctx.count("virtual-table-dropped|shadow-tables-listed-by-lint", sum(1 for d in diags if L.diag_names(d.get("Text") or "")[:1] and L.diag_names(d.get("Text"))[0] in recs[i]["optional"]))
+            ctx.count("virtual-table-dropped|files")
+        for g in groups:
+            if not g[6]:
+                ctx.count("rebuild-shaped-group-without-row-copy|%s" % f["writer"])
         first_path = (i == 0 and n >= total and len(stmts) > 10)
         observed["first_path"] = first_path
         ctx.eval(vlib.digest(observed), True)
@@ -473,7 +493,7 @@ def main():
         sys.exit(2)
     if ctx.replay:
         sys.exit(replay(ctx))
-    nevo = ctx.pick(110, 440)
+    nevo = ctx.pick(125, 500)
     ctx.par(list(range(nevo)), lambda e: run_evolution(ctx, e))
     table = {}
     for k, v in ctx.counters.items():
